@@ -37,11 +37,13 @@ theorem C11_query_same (s : Sem) (build : List Str → (Str → Bool)) (hb : Sou
 theorem C11_query_superset (s : Sem) (build : List Str → (Str → Bool)) (hb : SoundBuild build)
     (reOK : Str → Bool) (groups : List (List Block)) (q : Query)
     (hg : ∀ g ∈ groups, ValidGroup g) (hwf : ∀ g ∈ groups, ∀ b ∈ g, BlockWF s b)
-    (hmd : ∀ g ∈ groups, ∀ b ∈ g, MDWF b.md) (hv : q.Valid reOK)
+    (hmd : ∀ g ∈ groups, ∀ b ∈ g, MDWF b.md)
+    (hpairs : ∀ g ∈ groups, ∀ b ∈ g, ∀ p ∈ b.md.MinMaxIndexes, InI64 p.2.Min ∧ InI64 p.2.Max)
+    (hv : q.Valid reOK)
     (g : List Block) (b : Block) (r : Row) (hgm : g ∈ groups) (hbm : b ∈ g) (hr : r ∈ b.rows)
     (hpre : evalPre b.md q.pre = true) (hm : rowMatches s q r = true) :
     r ∈ query s [mergeFile s build groups] q :=
-  merge_query_superset_aux s build hb reOK groups q hg hwf hmd hv g b r hgm hbm hr hpre hm
+  merge_query_superset_aux s build hb reOK groups q hg hwf hmd hpairs hv g b r hgm hbm hr hpre hm
 
 /-- … limited to rows that match its bloom and regex expression. -/
 theorem C11_query_limited (s : Sem) (build : List Str → (Str → Bool)) (groups : List (List Block))
